@@ -1167,6 +1167,12 @@ pub async fn start_rpc_server(
     Ok(handle)
 }
 
+/// Builds the full RPC method table on top of an engine, without starting a server.
+#[cfg(feature = "verif")]
+pub fn verif_rpc_methods(engine: BRC20ProgEngine) -> jsonrpsee::Methods {
+    RpcServer { engine }.into_rpc().into()
+}
+
 fn ticker_as_bytes(ticker: &str) -> Bytes {
     let ticker_lowercase = ticker.to_lowercase();
     Bytes::from(ticker_lowercase.as_bytes().to_vec())
